@@ -182,6 +182,36 @@ func c17HTTP(t *testing.T, out *verifmc.ShardResult) {
 			fail("evict", "evicting submission after sequencing: done=%v status %d", hi.done, hi.code)
 		}
 	})
+	run("a duplicate of an evicted submission gets the retry-later answer too", 1, func(w *world, in *instance, l *Log, p *c17PKI) {
+		var lo, dup, hi c17Resp
+		low := p.leaf("low.example", true)
+		go c17Post(l, low, true, &lo)
+		synctest.Wait()
+		go c17Post(l, low, true, &dup) // deduplicated against the pending entry
+		synctest.Wait()
+		if lo.done || dup.done {
+			fail("evict-dup", "pending low-priority submission or its duplicate answered before anything happened (%d, %d)", lo.code, dup.code)
+		}
+		go c17Post(l, p.leaf("high.example", false), false, &hi)
+		synctest.Wait()
+		for name, r := range map[string]*c17Resp{"the evicted submission": &lo, "the duplicate of the evicted submission": &dup} {
+			if !r.done || r.code != http.StatusServiceUnavailable {
+				fail("evict-dup", "%s: done=%v status %d, want the retry-later answer 503", name, r.done, r.code)
+			}
+		}
+		// a later duplicate of the evicted entry (same pool) is refused the same way or admitted anew, never a server error
+		var late c17Resp
+		go c17Post(l, low, true, &late)
+		synctest.Wait()
+		if late.done && late.code != http.StatusServiceUnavailable {
+			fail("evict-dup", "resubmission of the evicted entry into the same full pool: status %d, want 503", late.code)
+		}
+		l.sequence(in.ctx)
+		synctest.Wait()
+		if !hi.done || hi.code != 200 {
+			fail("evict-dup", "evicting submission after sequencing: done=%v status %d", hi.done, hi.code)
+		}
+	})
 	run("after the read-only date submissions get 410", 2, func(w *world, in *instance, l *Log, p *c17PKI) {
 		var pend, later c17Resp
 		go c17Post(l, p.leaf("a.example", false), false, &pend)
@@ -269,5 +299,5 @@ func c17HTTP(t *testing.T, out *verifmc.ShardResult) {
 	if out.Extra == nil {
 		out.Extra = map[string]any{}
 	}
-	out.Extra["http_status_cases"] = 7
+	out.Extra["http_status_cases"] = 8
 }
